@@ -64,6 +64,7 @@ def check(repo, tier="quick"):
         "primitive that reads it yields, so that the viewer's monitor cannot throw while formatting; targets are declared entries; "
         "handler order and the single source of the internal-error status in BitstreamViewer.run."
     )
+    res.rule("C26.f", "bug patterns with zero expected instances in this property's modules: swapped same-named arguments, lower-bound guard followed by a decrement of the guarded value, presence of a dictionary entry decided by truthiness")
     res.rule("C26.a", "the formatter declared for a target accepts the type its serdes primitive yields (Bits<->bitarray, Bytes<->bytes, Number family<->int, List family only on list targets)")
     res.rule("C26.b", "every target the description program reads is a declared entry of its context type (entry_objs[target] cannot miss)")
     res.rule("C26.c", "in BitstreamViewer.run the termination/EOF/interrupt handlers precede the generic handler; 255 is returned only under is_internal_error; is_internal_error resets on description-program frames")
@@ -114,6 +115,10 @@ def check(repo, tier="quick"):
     rule_d(repo, res)
     rule_e(repo, res, sm)
     rule_mixin(repo, res)
+    from .. import lints as _lints
+
+    _lints.rule(repo, res, "C26.f", ['scripts.vc2_bitstream_viewer', 'string_formatters', 'string_utils'])
+    res.floor("C26.f", 4)
     res.floor("C26.e", 12)
     res.floor("C26.a", 80)
     res.floor("C26.b", 80)
